@@ -70,3 +70,6 @@ package xstar
 //@   ghost was = s.closed at call:Lock#1
 //@   ensures was ==> result == protocol.ErrClosed
 //@   ensures !was ==> isnil(result) && s.closed && closed(s.closeq)
+//@
+//@ func (*socket).AddPipe
+//@   before call:SetPrivate#1 assert cap(p.sendq) == s.sendQLen
